@@ -104,7 +104,8 @@ class SgzCropper(SgzReader):
         # We need to inform the SEG-Y binary header what has happened to the trace length, otherwise
         # segyio will get all confused if attempting to read the cropped SGZ converted back to SEG-Y
         # (original-format files have a single header block, without the SEG-Y file header)
-        if len(header) >= DISK_BLOCK_BYTES + SEGY_TEXT_HEADER_BYTES + 22:
+        # (the SEG-Y field is 16 bits wide: longer traces - from sources without a SEG-Y header - leave it alone)
+        if len(header) >= DISK_BLOCK_BYTES + SEGY_TEXT_HEADER_BYTES + 22 and len_zslices <= 0xFFFF:
             header[DISK_BLOCK_BYTES + SEGY_TEXT_HEADER_BYTES + 20:
                    DISK_BLOCK_BYTES + SEGY_TEXT_HEADER_BYTES + 22] = struct.pack('>H', len_zslices)
 
